@@ -145,7 +145,7 @@ def same_value(a, b):
 def correspondence(ctx):
     dfols = core.import_dfols()
     from dfols.trust_region import trsbox, d_within_bounds
-    ncase = ctx.scale(700, 8000)
+    ncase = ctx.scale(1500, 15000)
     cases, lines = [], []
     for i in range(ncase):
         rng = np.random.default_rng([ctx.seed, 12, i])
@@ -273,7 +273,7 @@ def cauchy_step(c):
     return max(t, 0.0) * s
 
 
-def check_clauses(trsbox, c):
+def check_clauses(trsbox, c, stats=None):
     """returns None or (signature, description)"""
     n = c["n"]
     g, H, xopt, sl, su, delta = c["g"], c["H"], c["xopt"], c["sl"], c["su"], c["delta"]
@@ -293,22 +293,38 @@ def check_clauses(trsbox, c):
     dn = float(np.linalg.norm(d))
     if dn > delta * (1 + 1e-8):
         return ("C12:ball", "||d|| = %.17g > delta (1+1e-8) = %.17g" % (dn, delta * (1 + 1e-8)))
+    # rounding of the final `d = xnew - xopt` (trust_region.py:549-552) quantises d to ulp(|xopt|): the same 4 eps (|xopt|+|d|)
+    # as in the box clause.  It perturbs Q(d) by at most quant * |grad Q| and g + H d by at most quant * ||H||.
+    hn = float(np.linalg.norm(H, 2))
+    quant = 4 * EPS * (float(np.linalg.norm(xopt)) + dn)
+    gradq = float(np.linalg.norm(g)) + hn * dn
     # 3. model not increased
     q = qval(g, H, d)
     mag = abs(float(g @ d)) + abs(float(d @ (H @ d)))
-    if q > 1e-12 * mag:
+    if q > 1e-12 * mag + quant * gradq:
         return ("C12:model-increase", "Q(d) = %.6g > 0 (terms of size %.3g)" % (q, mag))
     # 4. Cauchy decrease
     dc = cauchy_step(c)
     qc = qval(g, H, dc)
     magc = abs(float(g @ dc)) + abs(float(dc @ (H @ dc)))
-    if q > qc + 1e-9 * (mag + magc):
+    if q > qc + 1e-9 * (mag + magc) + quant * gradq:
         return ("C12:cauchy-decrease", "Q(d) = %.12g but the truncated steepest-descent step reaches %.12g" % (q, qc))
     # 5. gnew = g + H d
     want = g + H @ d
-    scale = float(np.linalg.norm(g)) + float(np.linalg.norm(H, 2)) * max(dn, 0.0)
-    if float(np.max(np.abs(gnew - want))) > 1e-8 * scale + 1e-300:
-        return ("C12:gnew", "gnew differs from g + H d by %.3g (scale %.3g)" % (float(np.max(np.abs(gnew - want))), scale))
+    scale = float(np.linalg.norm(g)) + hn * dn
+    err = float(np.max(np.abs(gnew - want)))
+    if err > 1e-8 * scale + quant * hn + 1e-300:
+        return ("C12:gnew", "gnew differs from g + H d by %.3g (scale %.3g)" % (err, scale))
+    if stats is not None:
+        stats["zero_step"] += dn == 0.0
+        stats["on_boundary"] += dn >= delta * (1 - 1e-9)
+        stats["interior"] += 0.0 < dn < delta * (1 - 1e-9)
+        stats["box_exact"] += bool(np.all(x >= sl) and np.all(x <= su))
+        stats["max_norm_over_delta"] = max(stats["max_norm_over_delta"], dn / delta)
+        stats["strict_decrease"] += q < 0.0
+        stats["cauchy_step_nonzero"] += bool(np.any(dc != 0.0))
+        if err > 1e-8 * scale:
+            stats["gnew_needed_quantisation_term"] += 1
     return None
 
 
@@ -352,8 +368,10 @@ def shrink(trsbox, c, sig):
 def search(ctx):
     dfols = core.import_dfols()
     from dfols.trust_region import trsbox
-    ncase = ctx.scale(6000, 60000) * getattr(ctx, "boost", 1)
-    tags = {"hkind": {}, "bkind": {}, "n": {}, "zero_step": 0, "on_boundary": 0, "interior": 0}
+    ncase = ctx.scale(15000, 150000) * getattr(ctx, "boost", 1)
+    tags = {"hkind": {}, "bkind": {}, "n": {}}
+    stats = {"zero_step": 0, "on_boundary": 0, "interior": 0, "box_exact": 0, "max_norm_over_delta": 0.0, "strict_decrease": 0,
+             "cauchy_step_nonzero": 0, "gnew_needed_quantisation_term": 0}
     seeds = []
     for mm in getattr(ctx, "_c12_mismatch", [])[:20]:
         if "input" in mm:
@@ -369,7 +387,7 @@ def search(ctx):
         tags["n"][c["n"]] = tags["n"].get(c["n"], 0) + 1
         for b in c["bkinds"]:
             tags["bkind"][b] = tags["bkind"].get(b, 0) + 1
-        res = check_clauses(trsbox, c)
+        res = check_clauses(trsbox, c, stats)
         if res is not None:
             sig, what = res
             small = shrink(trsbox, c, sig)
@@ -377,10 +395,11 @@ def search(ctx):
             ctx.fail(sig, res2[1], {"case": case_json(small), "original": case_json(c)})
             if len(ctx.failures) >= 5:
                 break
-    ctx.cov["search_trsbox"] = {"inputs": ncase, "grid": tags,
+    ctx.cov["search_trsbox"] = {"inputs": ncase, "grid": tags, "outcomes": stats,
                                 "tolerances": {"box": "4 eps (|xopt|+|d|) per coordinate", "ball": "delta (1+1e-8)",
-                                               "no-increase": "1e-12 (|g.d|+|d.Hd|)", "cauchy": "1e-9 (|g.d|+|d.Hd| of both steps)",
-                                               "gnew": "1e-8 (||g|| + ||H|| ||d||)"}}
+                                               "no-increase": "1e-12 (|g.d|+|d.Hd|) + q", "cauchy": "1e-9 (|g.d|+|d.Hd| of both steps) + q",
+                                               "gnew": "1e-8 (||g|| + ||H|| ||d||) + 4 eps (|xopt|+|d|) ||H||",
+                                               "q": "4 eps (|xopt|+|d|) (||g|| + ||H|| ||d||): the final d = xnew - xopt is quantised to ulp(|xopt|)"}}
 
 
 def replay(payload):
